@@ -12,10 +12,14 @@
 // See the License for the specific language governing permissions and
 // limitations under the License.
 
+#[cfg(not(roughenough_verif))]
 use std::fs::File;
 use std::io::Read;
 use std::path::PathBuf;
+#[cfg(not(roughenough_verif))]
 use std::thread;
+#[cfg(roughenough_verif)]
+use verif_std::{fs::File, thread};
 use std::time::Duration;
 
 use data_encoding::{Encoding, HEXLOWER_PERMISSIVE};
